@@ -482,10 +482,11 @@ fn same_fp(a: &Fp, b: &Fp) -> bool {
     true
 }
 
-/// solver-chosen index: function 0..=2, one to three sub-indices each 0..=3
-pub fn sym_index<S: Src>(s: &mut S) -> CardIndex {
-    let f = s.below(3) as usize;
-    let depth = 1 + s.below(3) as usize;
+/// index with concrete function F and depth D (a symbolic SmallVec length does not finish);
+/// the one to three sub-indices are solver-chosen in 0..=3
+pub fn sym_index<S: Src, const F: usize, const D: usize>(s: &mut S) -> CardIndex {
+    let f = F;
+    let depth = D;
     let a = s.below(4) as u32;
     let b = s.below(4) as u32;
     let c = s.below(4) as u32;
@@ -523,9 +524,9 @@ fn ref_get<'a>(m: &'a Module, idx: &CardIndex) -> Option<&'a Card> {
     Some(c)
 }
 
-pub fn module_get<S: Src>(s: &mut S) {
+pub fn module_get<S: Src, const F: usize, const D: usize>(s: &mut S) {
     let mut m = skeleton();
-    let idx = sym_index(s);
+    let idx = sym_index::<S, F, D>(s);
     let expect = ref_get(&m, &idx).map(kind_code);
     let got = m.get_card(&idx).ok().map(kind_code);
     assert!(got == expect, "C16.module.get_card_resolves_index");
@@ -564,10 +565,10 @@ pub fn module_walk<S: Src>(s: &mut S) {
     s.reached("c16.module_walk");
 }
 
-pub fn module_replace<S: Src>(s: &mut S) {
+pub fn module_replace<S: Src, const F: usize, const D: usize>(s: &mut S) {
     let mut m = skeleton();
     let fp0 = fingerprint(&m);
-    let idx = sym_index(s);
+    let idx = sym_index::<S, F, D>(s);
     let valid = ref_get(&m, &idx).is_some();
     match m.replace_card(&idx, leaf(99)) {
         Ok(old) => {
@@ -611,10 +612,10 @@ fn parent_is_list(m: &Module, idx: &CardIndex) -> Option<(bool, usize)> {
     })
 }
 
-pub fn module_insert_remove<S: Src>(s: &mut S) {
+pub fn module_insert_remove<S: Src, const F: usize, const D: usize>(s: &mut S) {
     let mut m = skeleton();
     let fp0 = fingerprint(&m);
-    let idx = sym_index(s);
+    let idx = sym_index::<S, F, D>(s);
     let last = *idx.card_index.indices.last().unwrap() as usize;
     let info = parent_is_list(&m, &idx);
     match m.insert_card(&idx, leaf(99)) {
@@ -655,10 +656,10 @@ pub fn module_insert_remove<S: Src>(s: &mut S) {
     s.reached("c16.module_insert_remove");
 }
 
-pub fn module_remove<S: Src>(s: &mut S) {
+pub fn module_remove<S: Src, const F: usize, const D: usize>(s: &mut S) {
     let mut m = skeleton();
     let fp0 = fingerprint(&m);
-    let idx = sym_index(s);
+    let idx = sym_index::<S, F, D>(s);
     let expect = ref_get(&m, &idx).map(kind_code);
     match m.remove_card(&idx) {
         Ok(x) => {
@@ -696,11 +697,13 @@ fn is_prefix(a: &CardIndex, b: &CardIndex) -> bool {
     true
 }
 
-pub fn module_swap<S: Src>(s: &mut S) {
+pub fn module_swap<S: Src, const FA: usize, const DA: usize, const FB: usize, const DB: usize>(
+    s: &mut S,
+) {
     let mut m = skeleton();
     let fp0 = fingerprint(&m);
-    let a = sym_index(s);
-    let b = sym_index(s);
+    let a = sym_index::<S, FA, DA>(s);
+    let b = sym_index::<S, FB, DB>(s);
     let ca = ref_get(&m, &a).map(kind_code);
     let cb = ref_get(&m, &b).map(kind_code);
     let related = is_prefix(&a, &b) || is_prefix(&b, &a);
@@ -724,27 +727,55 @@ pub fn module_swap<S: Src>(s: &mut S) {
 }
 
 crate::harnesses! {
-    c16_children_binary / 19 => children_agree::<_, 0, 16, 0>;
-    c16_children_unary_ternary_misc / 12 => children_agree::<_, 17, 26, 0>;
+    c16_children_bin_a / 8 => children_agree::<_, 0, 5, 0>;
+    c16_children_bin_b / 8 => children_agree::<_, 6, 11, 0>;
+    c16_children_bin_c / 8 => children_agree::<_, 12, 16, 0>;
+    c16_children_unary / 8 => children_agree::<_, 17, 20, 0>;
+    c16_children_ternary_setvar / 8 => children_agree::<_, 21, 24, 0>;
+    c16_children_repeat_foreach / 8 => children_agree::<_, 25, 26, 0>;
     c16_children_leaves / 12 => children_agree::<_, 27, 36, 0>;
     c16_children_lists_a0 / 8 => children_agree::<_, 37, 42, 0>;
     c16_children_lists_a1 / 8 => children_agree::<_, 37, 42, 1>;
     c16_children_lists_a3 / 8 => children_agree::<_, 37, 42, 3>;
-    c16_replace_binary / 19 => replace_child::<_, 0, 16, 0>;
-    c16_replace_misc / 22 => replace_child::<_, 17, 36, 0>;
-    c16_replace_lists_a2 / 8 => replace_child::<_, 37, 42, 2>;
-    c16_insert_remove_binary / 19 => insert_remove_child::<_, 0, 16, 0>;
-    c16_insert_remove_misc / 22 => insert_remove_child::<_, 17, 36, 0>;
-    c16_insert_remove_lists_a0 / 8 => insert_remove_child::<_, 37, 42, 0>;
-    c16_insert_remove_lists_a2 / 8 => insert_remove_child::<_, 37, 42, 2>;
-    c16_remove_binary / 19 => remove_child::<_, 0, 16, 0>;
-    c16_remove_misc / 22 => remove_child::<_, 17, 36, 0>;
+    c16_replace_bin_c / 8 => replace_child::<_, 12, 16, 0>;
+    c16_replace_unary / 8 => replace_child::<_, 17, 20, 0>;
+    c16_replace_ternary_setvar / 8 => replace_child::<_, 21, 24, 0>;
+    c16_replace_repeat_foreach / 8 => replace_child::<_, 25, 26, 0>;
+    c16_replace_lists_a2_x / 8 => replace_child::<_, 37, 39, 2>;
+    c16_replace_lists_a2_y / 8 => replace_child::<_, 40, 42, 2>;
+    c16_insert_bin_a / 8 => insert_remove_child::<_, 0, 5, 0>;
+    c16_insert_unary / 8 => insert_remove_child::<_, 17, 20, 0>;
+    c16_insert_ternary_setvar / 8 => insert_remove_child::<_, 21, 24, 0>;
+    c16_insert_repeat_foreach / 8 => insert_remove_child::<_, 25, 26, 0>;
+    c16_insert_leaves / 12 => insert_remove_child::<_, 27, 36, 0>;
+    c16_insert_lists_a0 / 8 => insert_remove_child::<_, 37, 42, 0>;
+    c16_insert_lists_a2_x / 8 => insert_remove_child::<_, 37, 39, 2>;
+    c16_insert_lists_a2_y / 8 => insert_remove_child::<_, 40, 42, 2>;
+    c16_remove_bin_b / 8 => remove_child::<_, 6, 11, 0>;
+    c16_remove_unary / 8 => remove_child::<_, 17, 20, 0>;
+    c16_remove_ternary_setvar / 8 => remove_child::<_, 21, 24, 0>;
+    c16_remove_repeat_foreach / 8 => remove_child::<_, 25, 26, 0>;
     c16_remove_lists_a1 / 8 => remove_child::<_, 37, 42, 1>;
-    c16_remove_lists_a3 / 8 => remove_child::<_, 37, 42, 3>;
-    c16_module_get / 8 => module_get;
+    c16_remove_lists_a3_x / 8 => remove_child::<_, 37, 39, 3>;
+    c16_remove_lists_a3_y / 8 => remove_child::<_, 40, 42, 3>;
+    c16_module_get_f0_d1 / 8 => module_get::<_, 0, 1>;
+    c16_module_get_f0_d2 / 8 => module_get::<_, 0, 2>;
+    c16_module_get_f0_d3 / 8 => module_get::<_, 0, 3>;
+    c16_module_get_f1_d3 / 8 => module_get::<_, 1, 3>;
+    c16_module_get_f2_d1 / 8 => module_get::<_, 2, 1>;
     c16_module_walk / 18 => module_walk;
-    c16_module_replace / 18 => module_replace;
-    c16_module_insert_remove / 18 => module_insert_remove;
-    c16_module_remove / 18 => module_remove;
-    c16_module_swap / 18 => module_swap;
+    c16_module_replace_f0_d2 / 18 => module_replace::<_, 0, 2>;
+    c16_module_replace_f0_d3 / 18 => module_replace::<_, 0, 3>;
+    c16_module_replace_f1_d2 / 18 => module_replace::<_, 1, 2>;
+    c16_module_insert_f0_d1 / 18 => module_insert_remove::<_, 0, 1>;
+    c16_module_insert_f0_d3 / 18 => module_insert_remove::<_, 0, 3>;
+    c16_module_insert_f1_d2 / 18 => module_insert_remove::<_, 1, 2>;
+    c16_module_insert_f1_d3 / 18 => module_insert_remove::<_, 1, 3>;
+    c16_module_remove_f0_d2 / 18 => module_remove::<_, 0, 2>;
+    c16_module_remove_f0_d3 / 18 => module_remove::<_, 0, 3>;
+    c16_module_remove_f1_d1 / 18 => module_remove::<_, 1, 1>;
+    c16_module_swap_f0d1_f0d1 / 18 => module_swap::<_, 0, 1, 0, 1>;
+    c16_module_swap_f0d2_f0d3 / 18 => module_swap::<_, 0, 2, 0, 3>;
+    c16_module_swap_f0d2_f1d2 / 18 => module_swap::<_, 0, 2, 1, 2>;
+    c16_module_swap_f0d1_f0d2 / 18 => module_swap::<_, 0, 1, 0, 2>;
 }
